@@ -1,17 +1,17 @@
 SPECIFICATION Spec
 CONSTANTS
-  MaxCmd = 1
-  MaxEv = 1
-  MaxLop = 1
-  MaxPost = 0
+  MaxCmd = 2
+  MaxEv = 0
+  MaxLop = 0
+  MaxPost = 1
   MaxDisc = 0
-  ReplyShapes <- RS_two
+  ReplyShapes <- RS_small
   EventShapes <- ES_small
   EvNames <- N1
-  Listeners <- L2
-  SubmitKinds <- K2
+  Listeners <- L0
+  SubmitKinds <- K4
   Loose = FALSE
-  Dev <- DevLeak
+  Dev <- NoDev
 INVARIANT TypeOK
 INVARIANT WireFIFO
 INVARIANT OneOutstanding
